@@ -10,6 +10,11 @@ import warnings
 import trio
 import trio.testing
 
+try:
+    import greenback
+except ImportError:          # pragma: no cover
+    greenback = None
+
 import stackscope
 
 
@@ -24,6 +29,7 @@ class W:
         self.nobj = {}       # nursery id -> trio.Nursery
         self.nstack = {}     # task id -> [nursery ids]
         self.never = False
+        self.gb = {}         # task id -> True once the task has a greenback portal
 
     def chan(self, tid):
         if tid not in self.cmd:
@@ -37,11 +43,22 @@ async def worker(w, tid):
     await interp(w, tid)
 
 
+def sync_receive(w, tid):
+    """a portalized task waits for its next command in a synchronous function, through the await_ bridge"""
+    return greenback.await_(w.chan(tid)[1].receive())
+
+
 async def interp(w, tid):
     while True:
-        cmd = await w.chan(tid)[1].receive()
+        if w.gb.get(tid):
+            cmd = sync_receive(w, tid)
+        else:
+            cmd = await w.chan(tid)[1].receive()
         a = cmd["a"]
-        if a == "open":
+        if a == "ensure":
+            await greenback.ensure_portal()
+            w.gb[tid] = True
+        elif a == "open":
             await OPENERS[cmd["e"]](w, tid, cmd["x"])
         elif a == "spawn":
             w.nobj[w.nstack[tid][-1]].start_soon(worker, w, cmd["x"])
